@@ -823,14 +823,15 @@ Qed.
 Lemma proj_track_op_issue cfg m u p ob : proj (track_op cfg m (Issue u p) ob) = proj m ++ [(false, false, true)].
 Proof. cbn [track_op]. unfold proj. cbn [m_reqs set_m_keys set_m_reqs]. rewrite map_app. reflexivity. Qed.
 
+Lemma proj_ri_upd' f f' r m m' : proj m' = proj m -> (forall x, pj (f x) = f' (pj x)) -> proj (ri_upd f r m') = upd_nth r f' (proj m).
+Proof. intros E H. rewrite (proj_ri_upd f f' r m' H). f_equal. exact E. Qed.
+
 Lemma proj_track_op_cancel cfg m r ob :
   proj (track_op cfg m (Cancel r) ob) = proj m \/ proj (track_op cfg m (Cancel r) ob) = upd_nth r (fun _ => (true, false, false)) (proj m).
 Proof.
   cbn [track_op]. destruct (nth_error (m_reqs m) r) as [x|]; [|left; reflexivity].
   destruct (ri_stat x); try (left; reflexivity); right;
-    match goal with |- proj (ri_upd _ r ?m') = _ =>
-      assert (E : proj m' = proj m) by (dm; reflexivity); rewrite <- E end;
-    apply proj_ri_upd; intros y; unfold pj; dm; reflexivity.
+    (apply proj_ri_upd'; [dm; reflexivity|intros y; unfold pj; dm; reflexivity]).
 Qed.
 
 Lemma live_track_op_cancel cfg m r ob : live (proj (track_op cfg m (Cancel r) ob)) r = false.
@@ -839,12 +840,10 @@ Proof.
   2: { unfold live, proj. rewrite nth_error_map, Hx. reflexivity. }
   assert (Hn : nth_error (proj m) r = Some (pj x)) by (unfold proj; rewrite nth_error_map, Hx; reflexivity).
   destruct (ri_stat x) eqn:Hs.
-  - match goal with |- live (proj (ri_upd _ r ?m')) r = _ => assert (E : proj m' = proj m) by (dm; reflexivity) end.
-    erewrite proj_ri_upd with (f' := fun _ => (true, false, false)); [|intros y; unfold pj; dm; reflexivity].
-    rewrite E, (live_set _ _ _ _ Hn). reflexivity.
-  - match goal with |- live (proj (ri_upd _ r ?m')) r = _ => assert (E : proj m' = proj m) by (dm; reflexivity) end.
-    erewrite proj_ri_upd with (f' := fun _ => (true, false, false)); [|intros y; unfold pj; dm; reflexivity].
-    rewrite E, (live_set _ _ _ _ Hn). reflexivity.
+  - erewrite proj_ri_upd' with (f' := fun _ => (true, false, false)) (m := m); [|dm; reflexivity|intros y; unfold pj; dm; reflexivity].
+    rewrite (live_set _ _ _ _ Hn). reflexivity.
+  - erewrite proj_ri_upd' with (f' := fun _ => (true, false, false)) (m := m); [|dm; reflexivity|intros y; unfold pj; dm; reflexivity].
+    rewrite (live_set _ _ _ _ Hn). reflexivity.
   - unfold live. rewrite Hn. unfold pj, is_live. rewrite Hs. reflexivity.
   - unfold live. rewrite Hn. unfold pj, is_live. rewrite Hs. reflexivity.
 Qed.
